@@ -127,6 +127,14 @@ class Enumerator:
             res.append((ev, out))
         return res
 
+    def _tags(self, node):
+        r = self.may_raise(node)
+        if not r:
+            return []
+        if r is True:
+            return ['*']
+        return list(r)
+
     def _tick(self):
         self.count += 1
         if self.count > self.max_paths:
@@ -149,13 +157,14 @@ class Enumerator:
         self._tick()
         out = []
         if isinstance(s, _SIMPLE):
-            if self.may_raise(s):
-                out.append((ev + [('exc', s, '*')], ('raise', '*')))
+            for tag in self._tags(s):
+                out.append((ev + [('exc', s, tag)], ('raise', tag)))
             out.append((ev + [('stmt', s, None)], None))
             return out
         if isinstance(s, ast.Return):
-            if s.value is not None and self.may_raise(s):
-                out.append((ev + [('exc', s, '*')], ('raise', '*')))
+            if s.value is not None:
+                for tag in self._tags(s):
+                    out.append((ev + [('exc', s, tag)], ('raise', tag)))
             out.append((ev + [('return', s, None)], ('return', s)))
             return out
         if isinstance(s, ast.Raise):
@@ -169,8 +178,8 @@ class Enumerator:
         if isinstance(s, ast.Continue):
             return [(ev + [('stmt', s, None)], ('continue', None))]
         if isinstance(s, ast.If):
-            if self.may_raise(s.test):
-                out.append((ev + [('exc', s.test, '*')], ('raise', '*')))
+            for tag in self._tags(s.test):
+                out.append((ev + [('exc', s.test, tag)], ('raise', tag)))
             out.extend(self.block(s.body, ev + [('test', s.test, True)], exc_ctx))
             out.extend(self.block(s.orelse, ev + [('test', s.test, False)], exc_ctx))
             return out
@@ -191,8 +200,9 @@ class Enumerator:
         while states:
             e, it = states.pop()
             head = s.iter if is_for else s.test
-            if self.may_raise(head) and it == 0:
-                out.append((e + [('exc', head, '*')], ('raise', '*')))
+            if it == 0:
+                for tag in self._tags(head):
+                    out.append((e + [('exc', head, tag)], ('raise', tag)))
             # exit edge
             if not const_true:
                 ex = e + ([('for', s, False)] if is_for else [('test', s.test, False)])
@@ -215,8 +225,8 @@ class Enumerator:
         out = []
         e = ev
         for item in s.items:
-            if self.may_raise(item.context_expr):
-                out.append((e + [('exc', item.context_expr, '*')], ('raise', '*')))
+            for tag in self._tags(item.context_expr):
+                out.append((e + [('exc', item.context_expr, tag)], ('raise', tag)))
             e = e + [('with-in', item, None)]
         for e2, o2 in self.block(s.body, e, exc_ctx):
             e3 = e2
